@@ -2,6 +2,8 @@ package main
 
 import (
 	"fmt"
+	"math/bits"
+	"sort"
 	"strconv"
 	"strings"
 
@@ -261,8 +263,91 @@ func init() {
 		}
 		return strings.Join(outs, "|")
 	})
+	// shardprobe prefixLen nkeys maxSize seed: keys sharing a prefix of prefixLen bytes (some of them sharing a few bytes
+	// more, one equal to the prefix itself), plus two short keys after them; FirstDiffBits and the clauses of C17 are
+	// evaluated here on the real code.  Output "ok" or the first discrepancy.
+	reg("shardprobe", func(a []string) string {
+		pl, nk, ms, seed := int(mustI64(a[0])), int(mustI64(a[1])), int(mustI64(a[2])), mustU64(a[3])
+		pfx := strings.Repeat("a", pl)
+		set := map[string]bool{pfx: true}
+		for k := 0; len(set) < nk; k++ {
+			r := mix64(seed + uint64(k))
+			tail := []byte{byte('b' + r%5)}
+			for j := uint64(0); j < r>>8%3; j++ {
+				tail = append(tail, byte('b'+r>>(16+8*j)%3))
+			}
+			set[pfx+string(tail)] = true
+		}
+		keys := []string{}
+		for k := range set {
+			keys = append(keys, k)
+		}
+		keys = append(keys, "b", "bc")
+		sort.Strings(keys)
+		lcp := func(x, y string) int {
+			i := 0
+			for i < len(x) && i < len(y) && x[i] == y[i] {
+				i++
+			}
+			return i
+		}
+		fd := sigbits.FirstDiffBits(keys)
+		if len(fd) != len(keys)-1 {
+			return fmt.Sprintf("FirstDiffBits returns %d values for %d keys", len(fd), len(keys))
+		}
+		for i := range fd {
+			x, y := keys[i], keys[i+1]
+			l := lcp(x, y)
+			want := 8 * l
+			if l < len(x) && l < len(y) {
+				want += bits.LeadingZeros8(x[l] ^ y[l])
+			}
+			if int(fd[i]) != want {
+				return fmt.Sprintf("FirstDiffBits[%d] = %d, want %d", i, fd[i], want)
+			}
+		}
+		if len(a) > 4 && a[4] == "fd" {
+			return "ok" // FirstDiffBits only (the check of C16 must not depend on ShardByPrefix)
+		}
+		L, B := sigbits.ShardByPrefix(keys, int32(ms))
+		if len(B) != len(L)+1 || len(L) == 0 || B[0] != 0 || int(B[len(B)-1]) != len(keys) {
+			return fmt.Sprintf("shape: %d prefix lengths, boundaries %v", len(L), B)
+		}
+		prev := ""
+		for j := range L {
+			s, e := int(B[j]), int(B[j+1])
+			if e <= s || e-s > ms {
+				return fmt.Sprintf("shard %d = [%d,%d) with maxSize %d", j, s, e, ms)
+			}
+			want := len(keys[s])
+			for i := s; i+1 < e; i++ {
+				if l := lcp(keys[i], keys[i+1]); l < want {
+					want = l
+				}
+			}
+			if int(L[j]) != want {
+				return fmt.Sprintf("prefix length of shard %d = [%d,%d) is %d, want %d", j, s, e, L[j], want)
+			}
+			p := keys[s][:want]
+			if j > 0 && !(prev < p) {
+				return fmt.Sprintf("the prefix of shard %d does not sort after the one before", j)
+			}
+			prev = p
+		}
+		return "ok"
+	})
 	reg("shard", func(a []string) string {
 		l, b := sigbits.ShardByPrefix(parseStrList(a[0]), mustI32(a[1]))
-		return showI32s(l) + ";" + showI32s(b)
+		out := showI32s(l) + ";" + showI32s(b)
+		// the two results are the caller's, and separate: appending to either must not change the other
+		l2 := append(l, -7, -7, -7, -7)
+		if showI32s(l)+";"+showI32s(b) != out {
+			return out + "(RESULTS-SHARE-MEMORY: appending to the prefix lengths changed the boundaries)"
+		}
+		b2 := append(b, -9, -9, -9, -9)
+		if showI32s(l2[:len(l)])+";"+showI32s(b2[:len(b)]) != out {
+			return out + "(RESULTS-SHARE-MEMORY: appending to the boundaries changed the prefix lengths)"
+		}
+		return out
 	})
 }
